@@ -22,6 +22,8 @@ class SimStall(BaseException):
 
 
 class Peer:
+    lenient = False          # True: the transport does not validate TLS files
+
     def __init__(self):
         self.script = {}     # normalised url -> behaviour dict
         self.requests = []
@@ -60,7 +62,7 @@ def _fake_send(self, request, stream=False, timeout=None, verify=True,
         raise rex.ConnectionError('SimNet: no such host for %s'
                                   % request.url)
     # what the real adapter does before connecting (cert_verify)
-    if request.url.lower().startswith('https'):
+    if request.url.lower().startswith('https') and not peer.lenient:
         if isinstance(verify, str) and not os.path.exists(verify):
             peer.fired('tls_ca_missing_at_adapter')
             raise OSError('Could not find a suitable TLS CA certificate '
